@@ -426,6 +426,46 @@ fn round(g: &mut Xo, rep: &mut Report) {
     twenty_eight!(DynSelector<Pop, LeafError>, Leaf::new(0, kind.clone()), |d| obs_sel_concrete(d, &pop, seed), out);
     compare("DynSelector(identity error)", &format!("{kind:?}"), &concrete, out, rep, &format!("population of {n}"));
 
+    // A dynamic weighted list with a single erased member of positive weight is that member seen
+    // through the erased layer: same element for deterministic selectors, and on failure the
+    // member's own error must be what is reported (somewhere in the source chain), not another one.
+    {
+        use ec_core::operator::selector::dyn_weighted::DynWeighted;
+        let dw: DynWeighted<Pop> = DynWeighted::new(Leaf::new(0, kind.clone()), 1 + (seed % 5) as usize);
+        take_leaf_log();
+        let mut rng = TraceRng::stream(seed);
+        let got = match dw.select(&pop, &mut rng) {
+            Ok(x) => Ok(pop.iter().position(|p| std::ptr::eq(p, x))),
+            Err(e) => {
+                let (top, mut chain) = err_chain(&e);
+                chain.insert(0, top);
+                Err(chain)
+            }
+        };
+        take_leaf_log();
+        rep.eval();
+        rep.count("DynWeighted(single member)");
+        let deterministic = matches!(kind, LeafKind::Best | LeafKind::Worst | LeafKind::Marker(_));
+        // whether a selection succeeds does not depend on the stream, except for lexicase configured
+        // with more cases than results (the missing case may or may not be reached); the list draws
+        // from the stream before its member does, so only stream-independent facts are compared
+        let outcome_fixed = !(n > 0 && matches!(kind, LeafKind::Lexicase(c) if c > 3));
+        let problem = if !outcome_fixed { None } else { match (&concrete.value, &got) {
+            (Ok(_), Ok(None)) => Some("returned a reference that is not an element of the population".to_string()),
+            (Ok(want), Ok(Some(i))) if deterministic && *want != format!("element #{i}") && !matches!(kind, LeafKind::Best | LeafKind::Worst) => Some(format!("member returns {want}, the list returned element #{i}")),
+            (Ok(_), Ok(Some(_))) => None,
+            (Err((text, _)), Err(chain)) => {
+                // the member renders its error through LeafError::Real(debug text); the list must carry it
+                if chain.iter().any(|c| c.contains(text.as_str()) || text.contains(c.as_str())) { None } else { Some(format!("member fails with `{text}`, the list reports {chain:?}")) }
+            }
+            (Ok(want), Err(chain)) => Some(format!("member succeeds ({want}), the list fails with {chain:?}")),
+            (Err((text, _)), Ok(i)) => Some(format!("member fails with `{text}`, the list returned {i:?}")),
+        } };
+        if let Some(why) = problem {
+            rep.violation("C17/DynWeighted(single member)/differs-from-member", || json!({"member": format!("{kind:?}"), "population_size": n, "why": why}));
+        }
+    }
+
     // ---------------------------------------------------------------- mutators
     let genome: G = (0..g.usize_below(12)).map(|_| g.chance(1, 2)).collect();
     let mk = match g.below(4) {
